@@ -4,6 +4,7 @@ import (
 	"bytes"
 	"io"
 	"os"
+	"strings"
 	"testing"
 
 	"github.com/Trisia/randomness/detect"
@@ -140,7 +141,11 @@ func genC10(t *rapid.T) c10Case {
 		return c10Case{Single: true, NumByte: n, Seed: rapid.Uint64().Draw(t, "seed"), PlanKind: kind, Stream: streamCase{Plan: plan}}
 	}
 	wn := c07Workflow()
-	sc := drawStream(t, wn, []string{"allpass", "allpass", "one-bad", "one-bad", "random", "passcount", "uniformity"})
+	targets := []string{"allpass", "allpass", "one-bad", "one-bad", "random", "passcount", "uniformity"}
+	if v := os.Getenv("VERIF_TARGETS"); v != "" {
+		targets = strings.Split(v, ",")
+	}
+	sc := drawStream(t, wn, targets)
 	sc.Fast = rapid.Bool().Draw(t, "fast")
 	if mode == "factory" || mode == "poweron" {
 		sc.Fast = envInt("VERIF_FAST", 1) == 1
